@@ -187,7 +187,7 @@ def h_mps_whole(H, net, training):
         # the read-only reports of the wrapper (alpha_summary / theta_alpha_summary / str) between the cost reads
         a_s = model.alpha_summary()
         t_s = model.theta_alpha_summary()
-        str(model)
+        model.__str__()
         H.ensure('[C18] observers:coefficient-reports-list-the-layers-summary-lists', sorted(a_s.keys()) == sorted(summ.keys()) and sorted(t_s.keys()) == sorted(summ.keys()))
         H.ensure('[C18] observers:cost-unchanged-by-the-coefficient-reports', H.eq(H.scalar(model.get_cost()), c_before))
         H.ensure('[C18] observers:training-mode-kept-by-the-coefficient-reports', all(m.training for m in model.modules()))
